@@ -26,30 +26,53 @@ func ruleSnapshotOrder(r *Report) {
 	if fn == nil {
 		return
 	}
-	open := callsTo(fn, false, "(*column.Collection).recorderOpen")
-	ws := callsTo(fn, false, "(*column.Collection).writeState")
-	cp := callsTo(fn, false, "(*commit.Log).Copy")
+	// each stage may sit in an unexported helper (recordState: writeState, then uninstall)
+	open := callsToDeep(fn, false, "(*column.Collection).recorderOpen")
+	ws := callsToDeep(fn, false, "(*column.Collection).writeState")
+	cp := callsToDeep(fn, false, "(*commit.Log).Copy")
 	if len(open) != 1 || len(ws) != 1 || len(cp) != 1 {
 		h.Bad("(*column.Collection).Snapshot/order", r.P.Pos(fn.Pos()), "recorderOpen / writeState / Log.Copy not found exactly once")
 		return
 	}
-	ok := precedes(open[0], ws[0]) && precedes(ws[0], cp[0])
-	h.Check(ok, "(*column.Collection).Snapshot/order", r.P.InstrPos(ws[0]), "open ≺ state ≺ copy", "the recorder is not opened before the state is written, or the recorded log is not copied after the state: commits applied while the state is written are lost or precede the state in the stream")
+	// a ≺ b: where they stand if that is one function, at their sites in Snapshot otherwise
+	before := func(a, b deepCall) bool {
+		if a.Inner.Parent() == b.Inner.Parent() {
+			return precedes(a.Inner, b.Inner)
+		}
+		return a.Site != b.Site && precedes(a.Site, b.Site)
+	}
+	ok := before(open[0], ws[0]) && before(ws[0], cp[0])
+	h.Check(ok, "(*column.Collection).Snapshot/order", r.P.InstrPos(ws[0].Inner), "open ≺ state ≺ copy", "the recorder is not opened before the state is written, or the recorded log is not copied after the state: commits applied while the state is written are lost or precede the state in the stream")
 	// the recorder stays installed while the state is written: no uninstall before writeState returned
 	early := false
-	for _, c := range callsTo(fn, false, "(*column.Collection).recorderClose") {
-		if !precedes(ws[0], c) {
+	for _, c := range callsToDeep(fn, false, "(*column.Collection).recorderClose") {
+		if !before(ws[0], c) {
 			early = true
 		}
 	}
-	h.Check(!early, "(*column.Collection).Snapshot/recording-while-writing", r.P.InstrPos(ws[0]), "the recorder is uninstalled only after the state was written", "the recorder is uninstalled before (or on a path that does not pass) writeState: the commits applied while the blocks are being written are recorded nowhere")
-	cc, _, _ := callCommon(cp[0])
-	rec, isEx := extractOf(cc.Args[0], 0)
-	same := isEx && rec == open[0].(*ssa.Call) && sameExpr(cc.Args[1], fn.Params[1])
+	h.Check(!early, "(*column.Collection).Snapshot/recording-while-writing", r.P.InstrPos(ws[0].Inner), "the recorder is uninstalled only after the state was written", "the recorder is uninstalled before (or on a path that does not pass) writeState: the commits applied while the blocks are being written are recorded nowhere")
+	cc, _, _ := callCommon(cp[0].Inner)
+	same := false
+	if oc, isCall := open[0].Inner.(*ssa.Call); isCall && open[0].Inner.Parent() == fn && cp[0].Inner.Parent() == fn {
+		rec, isEx := extractOf(cc.Args[0], 0)
+		same = isEx && rec == oc && sameExpr(cc.Args[1], fn.Params[1])
+	}
 	// the state goes to the same destination (through the s2 writer)
-	wcc, _, _ := callCommon(ws[0])
-	dstOK := dependsOn(wcc.Args[1], func(v ssa.Value) bool { return v == ssa.Value(fn.Params[1]) }, 6)
-	h.Check(same && dstOK, "(*column.Collection).Snapshot/stream", r.P.InstrPos(cp[0]), "state and recorded log go to the caller's writer", "the log copied is not the recorder opened for this snapshot, or state and log do not go to the same destination")
+	wcc, _, _ := callCommon(ws[0].Inner)
+	fromDst := func(v ssa.Value) bool {
+		if v == ssa.Value(fn.Params[1]) {
+			return true
+		}
+		// the helper's parameter that Snapshot binds to its destination
+		if p, isP := v.(*ssa.Parameter); isP && p.Parent() != fn {
+			if a := paramArg(p); a != nil {
+				return dependsOn(a, func(z ssa.Value) bool { return z == ssa.Value(fn.Params[1]) }, 6)
+			}
+		}
+		return false
+	}
+	dstOK := dependsOn(wcc.Args[1], fromDst, 6)
+	h.Check(same && dstOK, "(*column.Collection).Snapshot/stream", r.P.InstrPos(cp[0].Inner), "state and recorded log go to the caller's writer", "the log copied is not the recorder opened for this snapshot, or state and log do not go to the same destination")
 }
 
 func ruleRestoreGuard(r *Report) {
@@ -203,6 +226,33 @@ func ruleReadChunk(r *Report) {
 			// commits[block], or 0 for a block the table does not cover yet (`last := 0; if block <
 			// len(commits) { last = commits[block] }`)
 			id := c.Call.Args[0]
+			idx := ssa.Value(fn.Params[1])
+			if hc, isCall := id.(*ssa.Call); isCall && hc.Call.StaticCallee() != nil && isHelper(hc.Call.StaticCallee()) {
+				// lastCommitOf(block): a helper with two returns, 0 and commits[its parameter], called with the block
+				g := originOf(hc.Call.StaticCallee())
+				var ld ssa.Value
+				zero, other := false, false
+				for _, ret := range returnsOf(g) {
+					if len(ret.Results) != 1 {
+						other = true
+						continue
+					}
+					if k, isC := constInt(ret.Results[0]); isC && k == 0 {
+						zero = true
+					} else if ld == nil {
+						ld = ret.Results[0]
+					} else {
+						other = true
+					}
+				}
+				if ld != nil && !other && (zero || len(returnsOf(g)) == 1) {
+					for i, p := range g.Params {
+						if i < len(hc.Call.Args) && sameExpr(hc.Call.Args[i], fn.Params[1]) && isNamed(p.Type(), CommitPath, "Chunk") {
+							id, idx = ld, p
+						}
+					}
+				}
+			}
 			if phi, isPhi := id.(*ssa.Phi); isPhi {
 				var ld ssa.Value
 				zero := false
@@ -222,7 +272,7 @@ func ruleReadChunk(r *Report) {
 				argsOK = false
 			} else if ia, isIA := ld.X.(*ssa.IndexAddr); !isIA {
 				argsOK = false
-			} else if fr, isF := loadedField(ia.X); !isF || fr.Field != "commits" || !sameExpr(ia.Index, fn.Params[1]) {
+			} else if fr, isF := loadedField(ia.X); !isF || fr.Field != "commits" || !sameExpr(ia.Index, idx) {
 				argsOK = false
 			}
 			if !sameExpr(c.Call.Args[1], fn.Params[1]) {
@@ -296,7 +346,7 @@ func ruleReadChunk(r *Report) {
 				continue
 			}
 			n++
-			if !dependsOn(ret.Results[0], func(z ssa.Value) bool {
+			if !boundedBy(ret, ret.Results[0], func(z ssa.Value) bool {
 				cl, isC := z.(*ssa.Call)
 				if !isC || len(cl.Call.Args) != 1 {
 					return false
@@ -1000,7 +1050,7 @@ func ruleSnapshotCount(r *Report) {
 					continue
 				}
 				n++
-				if !dependsOn(v, func(x ssa.Value) bool {
+				if !boundedBy(ret, v, func(x ssa.Value) bool {
 					c, isCall := x.(*ssa.Call)
 					if !isCall || !methodOn(&c.Call, "github.com/kelindar/bitmap", "Bitmap", "Max") {
 						return false
@@ -1853,4 +1903,30 @@ func passThroughError(fn *ssa.Function) string {
 		name = n
 	}
 	return name
+}
+
+// boundedBy: the returned value v is bounded above by a quantity recognised by pred — it is
+// computed from it, or the return is reached only on an edge of a comparison that says v ≤ (or <)
+// a value computed from it (the two returns of a minimum written as `if a < b { return a }; return b`).
+func boundedBy(ret *ssa.Return, v ssa.Value, pred func(ssa.Value) bool, depth int) bool {
+	if dependsOn(v, pred, depth) {
+		return true
+	}
+	return edgeGuarded(ret.Block(), func(c ssa.Value) (bool, bool) {
+		bo, isB := strip(c).(*ssa.BinOp)
+		if !isB {
+			return false, false
+		}
+		op, x, y, _, isK := canonBin(bo)
+		if isK || (op != token.LSS && op != token.LEQ) {
+			return false, false
+		}
+		switch {
+		case sameExpr(x, v) && dependsOn(y, pred, depth): // v < other: on the true edge
+			return true, true
+		case sameExpr(y, v) && dependsOn(x, pred, depth): // other < v, other <= v: v is the smaller one on the false edge
+			return true, false
+		}
+		return false, false
+	})
 }
